@@ -25,11 +25,13 @@ from concurrent.futures import ThreadPoolExecutor
 
 import numpy as np
 
-from common import CaseWriter, Raw, Res, Zc, Opt, Interner, coq
+from fractions import Fraction
 
-IMPORTS = ("From Coq Require Import String ZArith.\n"
+from common import CaseWriter, Raw, Res, Zc, Qc, Opt, Interner, coq
+
+IMPORTS = ("From Coq Require Import String ZArith QArith.\n"
            "From CKT Require Import Common.Base Model.Process Corr.C09Corr.\n"
-           "Open Scope string_scope.")
+           "Close Scope Q_scope.\nOpen Scope string_scope.")
 SLOTS = ["cost_func", "next_state_func", "goal_state_func", "upperbound_cost_func", "mincost_bound_func"]
 HERE = os.path.dirname(os.path.abspath(__file__))
 JOBS = int(os.environ.get("CKT_C09_JOBS", "8"))
@@ -297,15 +299,21 @@ def worker(inp, outp):
             try:
                 from qiskit_addon_cutting.qpd import QPDBasis
                 ok = True
+                coeffs = []
+                labels = spec["labels"]
                 for name, qs, params in spec["ops"]:
                     if len(qs) == 2:
                         b = QPDBasis.from_instruction(_build_gate(name, params))
+                        if labels[qs[0]] != labels[qs[1]]:      # a gate that is cut: its basis enters the joint distribution
+                            coeffs.append([[Fraction(float(c)).numerator, Fraction(float(c)).denominator] for c in b.coeffs])
                         w_ = np.abs(np.asarray(b.coeffs, dtype=float))
                         ok = ok and bool(np.allclose(np.asarray(b.probabilities), w_ / w_.sum(), rtol=1e-12, atol=0)) \
                             and bool(abs(b.kappa - w_.sum()) <= 1e-12 * w_.sum())
                 rec["probs_model"] = ok
+                rec["coeffs"] = coeffs
             except Exception:  # noqa: BLE001
                 rec["probs_model"] = True
+                rec["coeffs"] = []
         out["events"].append(rec)
     json.dump(out, open(outp, "w"))
 
@@ -498,9 +506,11 @@ def gen_ge(rng, num_samples=None, exact_gates=False):
 
 
 def gen_ge_finite_exact(rng):
-    """finite num_samples for which _generate_qpd_weights takes the all-exact branch (1/num_samples <= 1/36 <= smallest
-    probability of 1-2 cut cx/cz/cy gates), or num_samples < 1 (refused before anything is touched): no sampling either way"""
-    ns = [1e4, 1e6, float(2 ** 40), 36.0, 1000.0, 0.5][int(rng.integers(0, 6))]
+    """finite num_samples for which _generate_qpd_weights certainly takes the all-exact branch (1/num_samples < 1/36 <= smallest
+    probability of 1-2 cut cx/cz/cy gates, with margin), or num_samples < 1 (refused before anything is touched): no sampling either way"""
+    # 37 > 36 (1 + 2^-40): clear of the rounding margin for two cuts; num_samples = 36 itself (p = 1/36 exactly) is inside the
+    # band where the model makes no claim and belongs to the weights stream
+    ns = [1e4, 1e6, float(2 ** 40), 37.0, 1000.0, 0.5][int(rng.integers(0, 6))]
     c = gen_ge(rng, num_samples=ns, exact_gates=True)
     c["exact"] = True
     return c
@@ -680,7 +690,13 @@ def build_case(events, results, fresh_specs, fresh_results, fresh_hashseeds=None
                            before=rec["before"], after=rec["after"],
                            hashseed=(fresh_hashseeds[len(jfresh)] if fresh_hashseeds else "0")))
     cviews = [(vid, coq_view(view_objs[vid])) for vid in sorted(view_objs)]
-    coq_case = (cviews, cfresh, cev)
+    ginfo = {}
+    for spec, rec in list(zip([e["call"] for e in events], results)) + list(zip(fresh_specs, fresh_results)):
+        if spec["kind"] == "ge":
+            ns = spec["num_samples"]
+            ginfo[arg_of(spec)] = ([[Qc(Fraction(n, d)) for n, d in b] for b in rec.get("coeffs", [])],
+                                   Opt(Qc(Fraction(ns))) if ns is not None else Opt())
+    coq_case = (cviews, cfresh, cev, sorted(ginfo.items(), key=lambda kv: kv[0]))
     json_case = dict(kind="history", events=jev, fresh=jfresh)
     return coq_case, json_case
 
@@ -735,6 +751,65 @@ def run_copy(g1, g2, settings=None):
     return r, (before == after), g1
 
 
+def run_weights(gates, ns, rng=None):
+    """generate_qpd_weights on the bases of `gates`.  With rng: num_samples is drawn around the exact reciprocal of the
+    smallest probability (boundary, +-1 ulp-ish, +-1e-9 relative, far above, far below, < 1, inf)."""
+    import logging
+    from qiskit_addon_cutting.qpd import QPDBasis
+    from qiskit_addon_cutting.qpd import weights as W
+    bases = [QPDBasis.from_instruction(_build_gate(g, p)) for g, p in gates]
+    coeffs = [[Fraction(float(c)) for c in b.coeffs] for b in bases]
+    p = Fraction(1)
+    for cs in coeffs:
+        kap = sum(abs(c) for c in cs)
+        nz = [abs(c) / kap for c in cs if abs(c) / kap > Fraction(1, 10 ** 14)]
+        p *= min(nz) if nz else 0
+    where = "given"
+    if rng is not None:
+        mode = int(rng.integers(0, 9))
+        recip = float(1 / p) if p else 1e6
+        if mode == 0:
+            ns, where = None, "inf"
+        elif mode == 1:
+            ns, where = recip, "boundary"
+        elif mode == 2:
+            ns, where = float(np.nextafter(recip, np.inf)), "boundary+ulp"
+        elif mode == 3:
+            ns, where = float(np.nextafter(recip, 0)), "boundary-ulp"
+        elif mode == 4:
+            ns, where = recip * (1 + 1e-9), "above by 1e-9"
+        elif mode == 5:
+            ns, where = recip * (1 - 1e-9), "below by 1e-9"
+        elif mode == 6:
+            ns, where = recip * float(rng.uniform(1.5, 100)), "far"
+        elif mode == 7:
+            ns, where = max(1.0, recip * float(rng.uniform(0.05, 0.7))), "far"
+        else:
+            ns, where = float(rng.uniform(0.01, 0.99)), "below 1"
+    msgs = []
+
+    class H(logging.Handler):
+        def emit(self, record):
+            msgs.append(record.getMessage())
+    h = H()
+    old_level = W.logger.level
+    W.logger.addHandler(h)
+    W.logger.setLevel(logging.INFO)
+    st0 = np.random.get_state()
+    try:
+        try:
+            W.generate_qpd_weights(bases, np.inf if ns is None else ns)
+            branch = 0 if "All exact weights" in msgs else 1
+        except ValueError:
+            branch = 2
+    finally:
+        W.logger.removeHandler(h)
+        W.logger.setLevel(old_level)
+    st1 = np.random.get_state()
+    moved = not (st0[2] == st1[2] and (st0[1] == st1[1]).all())
+    return dict(coeffs=[[[c.numerator, c.denominator] for c in cs] for cs in coeffs], num_samples=ns, moved=moved, branch=branch, where=where)
+
+
 def run_group(g1, settings=None):
     from qiskit_addon_cutting.cut_finding.cutting_actions import disjoint_subcircuit_actions as reg
     from qiskit_addon_cutting.cut_finding.optimization_settings import OptimizationSettings
@@ -784,6 +859,7 @@ def generate(rng, tier, outdir):
     n_copy = 150 if quick else 2000
     n_define = 150 if quick else 2000
     n_group = 60 if quick else 600
+    n_weights = 120 if quick else 1500
 
     # ---- histories ----
     fams = [gen_family(rng, maxlen) for _ in range(n_fam)]
@@ -869,6 +945,29 @@ def generate(rng, tier, outdir):
         w.count("copy.outcome", r[0])
         w.count("copy.size", len(r[1]["actions"]) if r[0] == "ok" else -1)
 
+    # ---- generate_qpd_weights: the branch taken and whether numpy's global state moves, vs reaches_sampler ----
+    specs = [(["cx"] * 5, 7776.0), (["cx"] * 5, 7777.0), (["cx"] * 5, 7775.0), (["cx"] * 5, None), (["cz"] * 4, 1296.0),
+             (["cx"] * 3, 216.0), (["cx", "cy"], 36.0), (["cx"], 6.0), (["cx"], 0.5), (["cx", "cz"], 35.999999999)]
+    for it in range(n_weights):
+        if it < len(specs):
+            gates, ns = specs[it]
+            gates = [[g, []] for g in gates]
+        else:
+            k = int(rng.integers(1, 6))
+            gates = []
+            for _ in range(k):
+                g = ["cx", "cz", "cy", "ch", "rzz", "cp", "crx", "rxx", "csx"][int(rng.integers(0, 9))]
+                gates.append([g, [_angle(rng)] if g in ("rzz", "cp", "crx", "rxx") else []])
+            ns = None
+        r = run_weights(gates, ns, rng if it >= len(specs) else None)
+        w.add("weights", "chk_weights",
+              ([[Qc(Fraction(n, d)) for n, d in b] for b in r["coeffs"]],
+               (Opt(Qc(Fraction(r["num_samples"]))) if r["num_samples"] is not None else Opt()), bool(r["moved"]), int(r["branch"])),
+              dict(kind="weights", gates=gates, num_samples=r["num_samples"], moved=r["moved"], branch=r["branch"], where=r["where"]),
+              nontrivial=(r["where"] != "far"))
+        w.count("weights.branch", ["all exact", "tail", "ValueError"][r["branch"]] + ("/np moved" if r["moved"] else ""))
+        w.count("weights.num_samples_vs_threshold", r["where"])
+
     # ---- get_group("TwoQubitGates") on a filtered copy: the action list the search expands with ----
     for it in range(n_group):
         if it < 4:
@@ -918,14 +1017,16 @@ def generate(rng, tier, outdir):
              "two from_instruction calls on the same parametrised gate name with different angles. Integer seeds with 0 (falsy), 1, 2**32-1 "
              "over-represented, also 2**32, 2**63-1, 2**64, -1 (refused), the same seed shared by several calls (1/16 seed=None, 1/40 width 0). "
              "generate_cutting_experiments on 2-4 qubit problems with 1-2 cut gates, partitioned and single-circuit forms, num_samples = inf, or "
-             "finite with the all-exact branch guaranteed (cx/cz/cy cuts, num_samples in {36,1e3,1e4,1e6,2**40}) or 0.5 (refused). "
+             "finite with the all-exact branch guaranteed (cx/cz/cy cuts, num_samples in {37,1e3,1e4,1e6,2**40}) or 0.5 (refused). "
              "QPDBasis.from_instruction on the 20 registered gates, 5 KAK-path gates and three refused inputs (1-qubit, 3-qubit, unbound parameter). "
              "Each family runs as three histories, every history in its own interpreter: base order (PYTHONHASHSEED 0), permuted (PYTHONHASHSEED "
              "drawn per history), every call at least twice with the ARGUMENT OBJECTS REUSED plus random repeats up to the length bound and an "
              "optional sampled generation as interference; random reseeding/advancing of numpy's and Python's global generators before each call; "
              "every distinct call alone in a fresh interpreter (half of them with a drawn PYTHONHASHSEED). "
              "distinct = distinct call sequence; non-trivial = at least two calls the property speaks about. "
-             "group: get_group('TwoQubitGates') of copies under the four option settings and random group lists vs ProcessCF.two_qubit_group and "
+             "weights: generate_qpd_weights on 1-5 six-term bases with num_samples at, one ulp around, 1e-9 around, far above/below the exact "
+             "reciprocal of the smallest probability, < 1 and inf (incl. five cx bases at 7776): branch taken and movement of numpy's global state "
+             "vs reaches_sampler on the real coefficients. group: get_group('TwoQubitGates') of copies under the four option settings and random group lists vs ProcessCF.two_qubit_group and "
              "the search model's search_actions. copy/define: random group lists (None, [], known, unknown) on the real registry / random action sequences with duplicate names.",
         extra=dict(extra=dict(interpreters=len(jobs), calls_executed=n_calls)))
 
@@ -977,6 +1078,10 @@ def rerun(case):
         return case
     if case["kind"] == "define":
         case["impl"] = run_define(case["actions"])
+        return case
+    if case["kind"] == "weights":
+        r = run_weights(case["gates"], case["num_samples"])
+        case.update(moved=r["moved"], branch=r["branch"])
         return case
     if case["kind"] == "group":
         r = run_group(case["groups"], tuple(case["settings"]) if case["settings"] else None)
